@@ -1,4 +1,4 @@
 SPECIFICATION Spec
-CONSTANTS LpCounts = {0, 1, 2}
+CONSTANTS LpCounts = {0, 1, 2, 3}
 INVARIANTS NoCssOnFailure CssOnSuccess Emit
 CHECK_DEADLOCK FALSE
